@@ -26,6 +26,8 @@ Program (lines form)
       ['read', [target, ...]] ['data', [[raw, sval|None, nval|None], ...]] ['restore', n|None]
       ['dim', 'A%', size]
       ['fault', basic_text, code]     opaque statement that always raises `code` (documented GW-BASIC error)
+      ['deffn', 'FNA', body_text, code|None, 'soft'?]   DEF FNA(X)=body_text ; calling it raises `code` (None: no error)
+      ['fncall', basic_text, 'FNA']   a statement that calls FNA once: the error of the body is an error of THIS statement
       ['fault', basic_text, code, 'soft']   the same, but pinned only while a trap is armed (1/0)
     expr: int | float (dyadic) | 'I%' (variable) | [op, a, b] with op in + - * \\ = <> < > <= >= |
           ['err'] | ['erl'] | ['arr', name, expr]
@@ -164,6 +166,7 @@ class Machine(object):
         self.done = None       # ('end',) | ('error', code, line|None) | ('stop', line)
         self.oob_seen = False
         self.error_origin = None
+        self.fns = {}          # DEF FN executed so far: name -> (code | None, soft)
         self.log = []          # (output length before the step, event name)
         self.counts = {}
         self.max_gosub = 0
@@ -210,7 +213,7 @@ class Machine(object):
     # -- suspend / resume ------------------------------------------------------------------
     def snapshot(self):
         keep = ('vars', 'arrays', 'stack', 'on_error', 'in_handler', 'resume_pc', 'err', 'erl', 'dptr',
-                'steps', 'done', 'oob_seen', 'pc', 'counts', 'max_gosub', 'dmoved', 'error_origin')
+                'steps', 'done', 'oob_seen', 'pc', 'counts', 'max_gosub', 'dmoved', 'error_origin', 'fns')
         snap = {k: copy.deepcopy(getattr(self, k)) for k in keep}
         snap['out'] = bytes(self.out)
         snap['log'] = list(self.log)
@@ -383,7 +386,7 @@ class Machine(object):
             getattr(self, '_x_' + op[0])(li, oi, op)
         except BasicError as e:
             # the code of ERROR n / of an opaque fault is the generator's choice, not a mechanism
-            self.error_origin = 'chosen' if op[0] in ('error', 'fault') else 'semantic'
+            self.error_origin = 'chosen' if op[0] in ('error', 'fault', 'fncall') else 'semantic'
             self._raise(li, oi, e)
         self._normalise_pc()
         if self.done is not None and self.done[0] == 'end' and self.in_handler and li >= 0 \
@@ -458,6 +461,28 @@ class Machine(object):
         if len(op[1]) > 3 and op[1][3] == 'soft' and not self.on_error:
             raise Unpinned('soft-handled arithmetic error without a trap')
         raise BasicError(op[1][2])
+
+    def _x_deffn(self, li, oi, op):
+        st = op[1]
+        if li < 0:
+            raise BasicError(12)
+        self.fns[st[1]] = (st[3], len(st) > 4 and st[4] == 'soft')
+        self._advance(li, oi)
+
+    def _x_fncall(self, li, oi, op):
+        name = op[1][2]
+        if name not in self.fns:
+            raise BasicError(18)
+        code, soft = self.fns[name]
+        if code is None:
+            self._ev('fn:returns')
+            self._advance(li, oi)
+            return
+        if soft and not self.on_error:
+            raise Unpinned('soft-handled arithmetic error in a DEF FN body without a trap')
+        # the failing statement is the CALLING one: ERL, RESUME and RESUME NEXT refer to it
+        self._ev('fn:body-raises')
+        raise BasicError(code)
 
     def _x_error(self, li, oi, op):
         n = self.ev(op[1][1])
